@@ -1411,6 +1411,10 @@ def _ode_tjm():
         r = ctx.rnd
         a = {"which": r.choice(("tjm", "jump")), "time_step": round(r.uniform(0.01, 0.3), 3), "number_of_steps": r.randint(1, 3),
              "gamma": r.choice((0.1, 1.0, 3.0)), "twod": r.random() < 0.4}
+        if r.random() < 0.5:
+            # the jump/no-jump decision is a draw from numpy.random.rand: the simulator decides it (0.0: the jump
+            # branch is taken whenever any jump has positive probability; just below 1: it never is)
+            a["epsilon"] = r.choice((0.0, 0.0, 1.0 - 2.0 ** -53))
         return {"op": "ode_tjm", "in": {"hamiltonian": o, "state": x}, "dest": ctx.dest(3), "args": a}
 
     def execute(run, rec, A, g):
@@ -1424,9 +1428,16 @@ def _ode_tjm():
         if a["twod"]:
             jl = [[sm, sz] for _ in range(h.order)]
             pl = [[a["gamma"], 0.5 * a["gamma"]] for _ in range(h.order)]
-        if a["which"] == "tjm":
-            return ode.tjm(h, jl, pl, x, a["time_step"], a["number_of_steps"])
-        return ode.tjm_jump_process_tdvp(h, x, jl, pl, a["time_step"])
+        if a.get("epsilon") is not None:
+            eps = float(a["epsilon"])
+            run.seams.rng_plan = lambda shape: eps if tuple(shape) == () else env.REAL.rand(*shape)
+            run.probes["tjm_jump_decision_served_by_simulator"] += 1
+        try:
+            if a["which"] == "tjm":
+                return ode.tjm(h, jl, pl, x, a["time_step"], a["number_of_steps"])
+            return ode.tjm_jump_process_tdvp(h, x, jl, pl, a["time_step"])
+        finally:
+            run.seams.rng_plan = None
     return choose, execute
 
 
